@@ -14,3 +14,8 @@ package shell
 // Runner: runs one command; may fail with an error; does not touch spok's cache or history.
 //@ iface Runner.Run
 //@ ensures err == nil ==> result.Cmd == cmd
+
+// IntegratedRunner.Run as used by the exec builtin (interpreter internals assumed, see C13 / C20)
+//@ func (IntegratedRunner).Run
+//@ trusted mvdan.cc/sh interpreter glue: parse, interp.New, runner.Run, exit status and output capture are assumed
+//@ ensures err == nil ==> result0.Cmd == cmd && (result0.Status == 0 ==> result0.Stdout == execStdout(cmd))
